@@ -114,6 +114,7 @@ func (bs *bootstrap) Connect(url string, option ...transport.Option) (Channel, e
 		return nil, err
 	}
 
+	verifPoint(bs, "b.connect")
 	// connect to remote endpoint
 	t, err := bs.transportFactory.Connect(options)
 	if nil != err {
@@ -138,15 +139,18 @@ func (bs *bootstrap) Listen(url string, option ...transport.Option) Listener {
 
 // Shutdown the bootstrap
 func (bs *bootstrap) Shutdown() {
+	verifPoint(bs, "sd.cancel")
 	// all channels will be canceled.
 	bs.bootstrapCancel()
 
+	verifPoint(bs, "sd.range")
 	// close all listener
 	bs.listeners.Range(func(key, value interface{}) bool {
 		_ = value.(Listener).Close()
 		return true
 	})
 
+	verifPoint(bs, "sd.closeall")
 	// close all channels
 	if nil != bs.holder {
 		bs.holder.CloseAll(ErrServerClosed)
@@ -183,6 +187,7 @@ func (l *listener) Acceptor() transport.Acceptor {
 
 // Close listener
 func (l *listener) Close() error {
+	verifPoint(l, "l.close")
 	l.bs.removeListener(l.url)
 	if l.acceptor != nil {
 		return l.acceptor.Close()
@@ -193,6 +198,7 @@ func (l *listener) Close() error {
 // Sync accept new transport from listener
 func (l *listener) Sync() error {
 
+	verifPoint(l, "l.sync")
 	if nil != l.acceptor {
 		return fmt.Errorf("duplicate call Listener:Sync")
 	}
@@ -206,6 +212,7 @@ func (l *listener) Sync() error {
 		return err
 	}
 
+	verifPoint(l, "l.listened")
 	for {
 		// accept the transport
 		t, err := l.acceptor.Accept()
@@ -218,6 +225,7 @@ func (l *listener) Sync() error {
 			}
 		}
 
+		verifPoint(l, "l.serve")
 		l.bs.ServeChannel(l.options.Context, t, l.options.Attachment, true)
 	}
 }
